@@ -26,7 +26,7 @@ HDR_ALG, HDR_CRIT, HDR_KID, HDR_IV = 1, 2, 4, 5
 HMAC_ALGS = {4: ('sha256', 8), 5: ('sha256', 32), 6: ('sha384', 48), 7: ('sha512', 64)}
 GCM_ALGS = {1: 16, 2: 24, 3: 32}
 KW_ALGS = {-3: 16, -4: 24, -5: 32}
-ECDSA_ALGS = {-7: 'sha256', -35: 'sha384', -36: 'sha512'}
+ECDSA_ALGS = {-7: 'sha256', -35: 'sha384', -36: 'sha512'}   # ES256 / ES384 / ES512
 
 
 class CoseError(ValueError):
@@ -201,7 +201,64 @@ def verify_result(result_id, result_enc, keys, ext_aad, payload, extra_unprot=No
             if _hmac.compare_digest(_hmac_tag(alg, cek, structure), bytes(msg['rest'][1])):
                 return True
         return False
+    if result_id == TAG_SIGN1:
+        if alg not in ECDSA_ALGS or len(msg['rest']) != 2:
+            raise CoseError('unsupported Sign1')
+        chain = hdr.get(33)
+        if isinstance(chain, bytes):
+            chain = [chain]
+        if not chain:
+            return False
+        structure = cb.enc(['Signature1', bytes(msg['prot_raw']), bytes(ext_aad), bytes(payload)])
+        return ecdsa_verify(alg, chain[0], structure, bytes(msg['rest'][1]))
     raise CoseError('unsupported result id %r' % result_id)
+
+
+def ecdsa_verify(alg, cert_der, data, raw_sig):
+    ''' COSE ECDSA: signature is r || s; the key is the subject key of the end-entity certificate. '''
+    from cryptography import x509
+    from cryptography.exceptions import InvalidSignature
+    from cryptography.hazmat.primitives import hashes
+    from cryptography.hazmat.primitives.asymmetric import ec, utils
+    try:
+        cert = x509.load_der_x509_certificate(bytes(cert_der))
+        pub = cert.public_key()
+        half = len(raw_sig) // 2
+        if half * 2 != len(raw_sig) or half == 0:
+            return False
+        der_sig = utils.encode_dss_signature(int.from_bytes(raw_sig[:half], 'big'), int.from_bytes(raw_sig[half:], 'big'))
+        pub.verify(der_sig, data, ec.ECDSA(getattr(hashes, ECDSA_ALGS[alg].upper())()))
+        return True
+    except (InvalidSignature, ValueError, TypeError):
+        return False
+
+
+def cert_bundle_eids(cert_der):
+    ''' Texts of the id-on-bundleEID otherName SANs of a certificate (minimal DER reading of the IA5String). '''
+    from cryptography import x509
+    cert = x509.load_der_x509_certificate(bytes(cert_der))
+    out = []
+    try:
+        ext = cert.extensions.get_extension_for_oid(x509.oid.ExtensionOID.SUBJECT_ALTERNATIVE_NAME)
+    except x509.ExtensionNotFound:
+        return out
+    for name in ext.value.get_values_for_type(x509.OtherName):
+        if name.type_id.dotted_string == '1.3.6.1.5.5.7.8.11' and len(name.value) >= 2 and name.value[0] == 0x16:
+            length = name.value[1]
+            out.append(name.value[2:2 + length].decode('ascii', 'replace'))
+    return out
+
+
+def sign1_identity_ok(asb):
+    ''' The end-entity certificate of a Sign1 result must name the security source. '''
+    _scope, _prot, unprot = params_of(asb)
+    extra = _py(cb.parse(unprot)) if unprot else {}
+    chain = extra.get(33)
+    if isinstance(chain, bytes):
+        chain = [chain]
+    if not chain:
+        return False
+    return ref9171.eid_text(asb['src']) in cert_bundle_eids(chain[0])
 
 
 def _unwrap(recip, keys):
@@ -287,6 +344,8 @@ def verify_bib(bundle, bib_blk, keys):
             raise CoseError('target has %d results' % len(results))
         rid, renc = results[0]
         aad = external_aad(bundle, bib_blk, target, asb)
+        if rid == TAG_SIGN1 and not (keys.get('trust-anchor-ok') and sign1_identity_ok(asb)):
+            return False
         if not verify_result(rid, renc, keys, aad, bytes.fromhex(target['data']), extra):
             return False
     return True
